@@ -132,12 +132,38 @@ class Slot:
 
 # ----------------------------------------------------------------------------- Coq
 
+# A run against a scratch copy of the repository (VERIF_REPO, used only for mutation experiments) must not
+# write regenerated files (Consts.v, Gen.v) or build output into /verif/props: it works on a mirror of the
+# Coq sources under the build directory. The registered commands (VERIF_REPO unset) use /verif/props itself.
+SCRATCH_COQ = os.path.realpath(REPO) != "/repo"
+_mirrored = set()
+
+
+def _coq_root():
+    return os.path.join(BUILD, "coqsrc") if SCRATCH_COQ else ROOT
+
+
+def _mirror(rel):
+    if not SCRATCH_COQ or rel in _mirrored:
+        return
+    src, dst = os.path.join(ROOT, rel), os.path.join(_coq_root(), rel)
+    os.makedirs(dst, exist_ok=True)
+    subprocess.run(["rsync", "-a", "--delete", src + "/", dst + "/"], check=True)
+    _mirrored.add(rel)
+
+
+def coq_lib_dir():
+    _mirror(os.path.join("coq", "lib"))
+    return os.path.join(_coq_root(), "coq", "lib")
+
+
 def coq_dir(prop):
-    return os.path.join(ROOT, "props", prop, "coq")
+    _mirror(os.path.join("props", prop, "coq"))
+    return os.path.join(_coq_root(), "props", prop, "coq")
 
 
 def coq_args(prop):
-    return ["-Q", os.path.join(ROOT, "coq", "lib"), "VLib", "-Q", coq_dir(prop), prop]
+    return ["-Q", coq_lib_dir(), "VLib", "-Q", coq_dir(prop), prop]
 
 
 def scan_forbidden(dirs):
@@ -208,7 +234,7 @@ def make_coq(d, timeout=1500):
 def build_coq(prop, timeout=1500):
     """Full .vo build of the shared library and the property's project."""
     with Lock("coq-lib"):
-        rc, out = make_coq(os.path.join(ROOT, "coq", "lib"), timeout)
+        rc, out = make_coq(coq_lib_dir(), timeout)
     if rc != 0:
         return rc, out
     with Lock("coq-" + prop):
@@ -294,7 +320,7 @@ def proof_gate(prop):
     res["theorems"] = thms
     res["examples"] = exs
     res["obligations"] = len(thms)
-    bad = scan_forbidden([os.path.join(ROOT, "coq", "lib"), coq_dir(prop)])
+    bad = scan_forbidden([coq_lib_dir(), coq_dir(prop)])
     if bad:
         res["failures"].append("forbidden vernacular: " + "; ".join(bad[:5]))
         return res
